@@ -231,3 +231,29 @@ Theorem C06_printed_generic_field_bounded : forall n generic refs es u e j,
                                             (combine (seq 0 (length es)) es)))).
 Proof. exact Proofs.printed_generic_field_bounded. Qed.
 Print Assumptions C06_printed_generic_field_bounded.
+
+(* ------------------------------------------------------------------ contains_generics on qualified paths *)
+
+(** a field type [<Q as Tr<..A..>>::Assoc] mentions a parameter as soon as the TRAIT's arguments do *)
+Theorem C06_qpath_generic_in_trait_args : forall ps q tr a assoc,
+  contains_generics ps a = true -> contains_generics ps (SPath q [(tr, [a]); (assoc, [])]) = true.
+Proof. exact Proofs.qpath_generic_in_trait_args. Qed.
+Print Assumptions C06_qpath_generic_in_trait_args.
+
+(** [<Q as Tr>::Assoc<..A..>]: ... or the associated type's own arguments *)
+Theorem C06_qpath_generic_in_assoc_args : forall ps q tr a assoc,
+  contains_generics ps a = true -> contains_generics ps (SPath q [(tr, []); (assoc, [a])]) = true.
+Proof. exact Proofs.qpath_generic_in_assoc_args. Qed.
+Print Assumptions C06_qpath_generic_in_assoc_args.
+
+(** [<..Q.. as Tr>::Assoc]: ... or the self type *)
+Theorem C06_qpath_generic_in_self : forall ps q segs,
+  contains_generics ps q = true -> contains_generics ps (SPath (Some q) segs) = true.
+Proof. exact Proofs.qpath_generic_in_self. Qed.
+Print Assumptions C06_qpath_generic_in_self.
+
+(** [T::Assoc] *)
+Theorem C06_assoc_of_param_generic : forall ps t assoc,
+  in_params ps t = true -> contains_generics ps (SPath None [(t, []); (assoc, [])]) = true.
+Proof. exact Proofs.assoc_of_param_generic. Qed.
+Print Assumptions C06_assoc_of_param_generic.
